@@ -4,6 +4,19 @@ For each handler: file, line, caught exception types, the names called in the tr
 whether the body can reach a user callable. Reachability is a conservative name-based call
 graph over the package: a function reaches the user if it calls one of the user-callable
 parameter names or (transitively) a function of the package that does.
+
+A handler is *transparent* when it cannot change what the caller of the minimiser sees of an
+exception (syntactic criterion, all of):
+  * every clause is `except T as e:` whose body is the single statement `raise`, `raise e`, or
+    `raise C(e)` (with or without `from None`) with C a *carrier* class;
+  * a carrier class is defined in the package as `class C(Exception)` with a docstring/pass body only, is
+    named nowhere except in such wrapping clauses and in *unwrapping* clauses
+    `except C as c: raise c.args[0]` (single statement, with or without `from None`);
+  * the carrier cannot escape un-unwrapped: every mention of the function lexically enclosing a wrapping clause is inside
+    the try body of an unwrapping clause for the same carrier, or is an alias assignment `obj.attr = name`, or lies inside
+    another function of the package — and the same then holds of that attribute / function name, up to a fixpoint in
+    which every exposed name is mentioned somewhere in the package (an unmentioned one is an entry point).
+An unwrapping clause for a carrier whose every construction site is such a wrapping clause is transparent too.
 """
 from __future__ import annotations
 
@@ -24,6 +37,12 @@ def called_names(node: ast.AST) -> Set[str]:
                 out.add(f.id)
             elif isinstance(f, ast.Attribute):
                 out.add(f.attr)
+            # a function handed over as an argument may be called by the callee (e.g. the differencing routine)
+            for a in list(n.args) + [k.value for k in n.keywords]:
+                if isinstance(a, ast.Name):
+                    out.add(a.id)
+                elif isinstance(a, ast.Attribute):
+                    out.add(a.attr)
     return out
 
 
@@ -80,7 +99,153 @@ def analyse(repo: Path):
                 changed = True
     for t in tries:
         t["reaches_user"] = bool(set(t["calls"]) & (reach | USER_PARAMS))
+    transparency(files, tries)
     return tries, sorted(reach)
+
+
+def transparency(files, tries) -> None:
+    trees = {f.name: ast.parse(f.read_text()) for f in files}
+    # carrier candidates: class C(Exception) with only a docstring / pass
+    carriers: Set[str] = set()
+    for tree in trees.values():
+        for n in ast.walk(tree):
+            if isinstance(n, ast.ClassDef) and [ast.unparse(b) for b in n.bases] == ["Exception"] and not n.keywords and not n.decorator_list \
+                    and all(isinstance(b, ast.Pass) or (isinstance(b, ast.Expr) and isinstance(b.value, ast.Constant) and isinstance(b.value.value, str)) for b in n.body):
+                carriers.add(n.name)
+
+    def is_wrap(h: ast.ExceptHandler):
+        """`except T as e: raise C(e) from None` -> C"""
+        if h.name is None or len(h.body) != 1 or not isinstance(h.body[0], ast.Raise):
+            return None
+        r = h.body[0]
+        if not (isinstance(r.exc, ast.Call) and isinstance(r.exc.func, ast.Name) and r.exc.func.id in carriers and not r.exc.keywords
+                and len(r.exc.args) == 1 and isinstance(r.exc.args[0], ast.Name) and r.exc.args[0].id == h.name):
+            return None
+        if not (r.cause is None or (isinstance(r.cause, ast.Constant) and r.cause.value is None)):
+            return None
+        return r.exc.func.id
+
+    def is_reraise(h: ast.ExceptHandler) -> bool:
+        if len(h.body) != 1 or not isinstance(h.body[0], ast.Raise):
+            return False
+        r = h.body[0]
+        return (r.exc is None and r.cause is None) or (h.name is not None and isinstance(r.exc, ast.Name) and r.exc.id == h.name and r.cause is None)
+
+    def is_unwrap(h: ast.ExceptHandler):
+        """`except C as c: raise c.args[0] from None` -> C"""
+        if h.name is None or not (isinstance(h.type, ast.Name) and h.type.id in carriers) or len(h.body) != 1 or not isinstance(h.body[0], ast.Raise):
+            return None
+        r = h.body[0]
+        ok = (isinstance(r.exc, ast.Subscript) and isinstance(r.exc.value, ast.Attribute) and r.exc.value.attr == "args"
+              and isinstance(r.exc.value.value, ast.Name) and r.exc.value.value.id == h.name
+              and isinstance(r.exc.slice, ast.Constant) and r.exc.slice.value == 0
+              and (r.cause is None or (isinstance(r.cause, ast.Constant) and r.cause.value is None)))
+        return h.type.id if ok else None
+
+    # collect per file: try nodes with parents
+    wrap_sites = []    # (carrier, enclosing function name, file, try line)
+    unwrap_sites = []  # (carrier, try node, file)
+    allowed_name_nodes = set()  # id() of Name nodes mentioning a carrier legitimately
+    for fname, tree in trees.items():
+        parent = {}
+        for n in ast.walk(tree):
+            for c in ast.iter_child_nodes(n):
+                parent[id(c)] = n
+        for n in ast.walk(tree):
+            if not isinstance(n, ast.Try):
+                continue
+            for h in n.handlers:
+                c = is_wrap(h)
+                if c:
+                    q = n
+                    while q is not None and not isinstance(q, (ast.FunctionDef, ast.AsyncFunctionDef)):
+                        q = parent.get(id(q))
+                    wrap_sites.append((c, q.name if q is not None else None, fname, n.lineno))
+                    allowed_name_nodes.add(id(h.body[0].exc.func))
+                c = is_unwrap(h)
+                if c:
+                    unwrap_sites.append((c, n, fname))
+                    allowed_name_nodes.add(id(h.type))
+    sound: Set[str] = set()
+    for c in carriers:
+        ok = True
+        # the carrier is named only at its definition, in wrapping and in unwrapping clauses
+        for tree in trees.values():
+            for n in ast.walk(tree):
+                if isinstance(n, ast.Name) and n.id == c and id(n) not in allowed_name_nodes:
+                    ok = False
+                if isinstance(n, ast.Attribute) and n.attr == c:
+                    ok = False
+                if isinstance(n, (ast.ImportFrom, ast.Import)) and any(a.name == c or a.asname == c for a in n.names):
+                    ok = False
+        my_unwraps = [t for (cc, t, _) in unwrap_sites if cc == c]
+        my_wraps = [w for w in wrap_sites if w[0] == c]
+        if not my_wraps or not my_unwraps:
+            ok = False
+        # the carrier cannot escape un-unwrapped: starting from the functions that lexically enclose a wrapping clause,
+        # every mention of an exposed name is (i) inside the try body of an unwrapping clause for this carrier, or
+        # (ii) the value of an alias assignment `obj.attr = name` (then `attr` is exposed too), or (iii) inside another
+        # function of the package (then that function is exposed too); an exposed name must be mentioned somewhere
+        # (a function nobody names in the package is an entry point: the carrier would leave the package through it)
+        unwrap_ids = set()
+        for t in my_unwraps:
+            for b_ in t.body:
+                for n in ast.walk(b_):
+                    unwrap_ids.add(id(n))
+        exposed = {encl for (_, encl, _, _) in my_wraps}
+        if None in exposed:
+            ok = False
+            exposed.discard(None)
+        done: Set[str] = set()
+        while ok and exposed - done:
+            name = sorted(exposed - done)[0]
+            done.add(name)
+            mentions = 0
+            for tree in trees.values():
+                par = {}
+                for n in ast.walk(tree):
+                    for ch in ast.iter_child_nodes(n):
+                        par[id(ch)] = n
+                for n in ast.walk(tree):
+                    hit = (isinstance(n, ast.Name) and n.id == name) or (isinstance(n, ast.Attribute) and n.attr == name)
+                    if not hit:
+                        continue
+                    pa = par.get(id(n))
+                    if isinstance(n, ast.Attribute) and isinstance(n.ctx, ast.Store):
+                        continue    # the target side of an alias assignment
+                    mentions += 1
+                    if id(n) in unwrap_ids:
+                        continue
+                    if isinstance(pa, ast.Assign) and pa.value is n and all(isinstance(t_, ast.Attribute) for t_ in pa.targets):
+                        exposed |= {t_.attr for t_ in pa.targets}
+                        continue
+                    q = pa
+                    while q is not None and not isinstance(q, (ast.FunctionDef, ast.AsyncFunctionDef, ast.Lambda)):
+                        q = par.get(id(q))
+                    if isinstance(q, (ast.FunctionDef, ast.AsyncFunctionDef)):
+                        exposed.add(q.name)
+                    else:
+                        ok = False   # module level or a lambda: not tracked
+            if mentions == 0:
+                ok = False
+        if ok:
+            sound.add(c)
+    # classify every try of the table (same walk order as in analyse)
+    k = 0
+    for f in files:
+        for n in ast.walk(trees[f.name]):
+            if not isinstance(n, ast.Try):
+                continue
+            t = tries[k]
+            k += 1
+            assert t["line"] == n.lineno and t["file"] == f.name
+            clauses = []
+            for h in n.handlers:
+                c = is_wrap(h)
+                u = is_unwrap(h)
+                clauses.append(is_reraise(h) or (c in sound if c else False) or (u in sound if u else False))
+            t["transparent"] = bool(clauses) and all(clauses) and not n.orelse and not n.finalbody
+    assert k == len(tries)
 
 
 def render(tries, reach) -> str:
@@ -90,13 +255,15 @@ def render(tries, reach) -> str:
          "namespace Lbfgsb.Generated", "",
          "structure Handler where",
          "  file : String", "  line : Nat", "  caught : List String", "  calls : List String",
-         "  reachesUser : Bool", "  swallows : Bool", "  deriving Repr, DecidableEq", "",
+         "  reachesUser : Bool", "  swallows : Bool",
+         "  /-- every clause re-raises the caught exception itself, or carries it in a private class that is unwrapped again (see the translator) -/",
+         "  transparent : Bool", "  deriving Repr, DecidableEq", "",
          "def handlers : List Handler := ["]
     rows = []
     for t in tries:
-        rows.append("  { file := %s, line := %d, caught := [%s], calls := [%s], reachesUser := %s, swallows := %s }" % (
+        rows.append("  { file := %s, line := %d, caught := [%s], calls := [%s], reachesUser := %s, swallows := %s, transparent := %s }" % (
             s(t["file"]), t["line"], ", ".join(s(c) for c in t["caught"]), ", ".join(s(c) for c in t["calls"]),
-            "true" if t["reaches_user"] else "false", "true" if t["swallows"] else "false"))
+            "true" if t["reaches_user"] else "false", "true" if t["swallows"] else "false", "true" if t["transparent"] else "false"))
     L.append(",\n".join(rows))
     L += ["]", "", "/-- functions of the package that can reach a user callable (name-based call graph) -/",
           "def reachingFunctions : List String := [" + ", ".join(s(r) for r in reach) + "]", "",
